@@ -164,6 +164,45 @@ def xa(ctx, alphabet, k=6):
     return list(alphabet) + extra
 
 
+MARKS = [0x300, 0x301, 0x302, 0x303, 0x304, 0x305, 0x306, 0x307, 0x308, 0x30A, 0x30B, 0x30C, 0x30F, 0x310, 0x311, 0x313, 0x314, 0x31A, 0x31B,
+         0x322, 0x323, 0x324, 0x325, 0x327, 0x328, 0x32D, 0x32E, 0x330, 0x331, 0x334, 0x338, 0x342, 0x345, 0x5B0, 0x5BF, 0x64B, 0x651, 0x653, 0x654,
+         0x93C, 0x94D, 0x3099, 0x309A, 0xFF9E, 0x34F]
+
+
+def mark_structures(ctx, bases=(0x61, 0x6F, 0x41, 0x75, 0x3B1, 0x391, 0xFF21)):
+    """strings whose interesting property is the STRUCTURE of their combining marks (what a normalizer shortcut must get
+    right): base + every ordered pair of marks (different classes, quick-check values, blocked and unblocked), a third
+    character after it, and long runs of marks of every length around the stream-safe limit (30)"""
+    out = []
+    for b in bases[:3 if ctx.tier == 'quick' else len(bases)]:
+        for m1 in MARKS:
+            for m2 in MARKS:
+                out.append([b, m1, m2])
+        for m1 in MARKS[::3]:
+            for m2 in MARKS[::2]:
+                out.append([0x78, b, m1, m2, 0x41])
+    for n in list(range(26, 36)) + [40, 63, 64, 65, 100, 200]:
+        for m in (0x301, 0x323, 0x5B0):
+            out.append([0x65] + [m] * n)
+            out.append([0x5A, 0x65] + [m] * n)                    # not NFKC-stable in front of the run: 'Z' is, U+FF3A below is not
+            out.append([0xFF3A, 0x65] + [m] * n + [0x20])
+            out.append([0x65] + [0x301, 0x323] * (n // 2) + [0xC5])
+    return out
+
+
+def straddle_strings(fill=0x61, maxn=70):
+    """a short interesting pattern placed after a run of filler of EVERY length (block-wise scans keep a carry between
+    blocks; the carry is wrong only when the pattern straddles a block boundary) and followed by fillers of several lengths"""
+    pats = [[0x20, 0x20, 0xE9], [0x20, 0xA0, 0x62], [0x20, 0x20], [0x20, 0xE9, 0x20, 0x20], [0xE9, 0x20, 0x20, 0x62], [0x3000, 0x20, 0x65E5],
+            [0x20, 0x20, 0x65E5, 0x62], [0x41, 0xE9], [0xFF21, 0x20, 0x20]]
+    out = []
+    for n in range(0, maxn + 1):
+        for p in pats:
+            for m in (0, 1, 5, 8, 13):
+                out.append([fill] * n + p + [0x62] * m)
+    return out
+
+
 def long_strings(ctx, alphabet, count, lo=20, hi=300):
     """random LONG strings (the small-scope enumerations stop at a handful of characters; the theorems have no length
     bound, so the correspondence must not have an obvious one either): plain random, long runs of one character,
